@@ -642,6 +642,36 @@ def chunk_contract_cases():
 
     out.append(Case(f"{PROP}/bytevec.SymbolicChunk#window", "get_byte and unwrap, every window of a 5-byte term", harness_symbolic_read, replay=replay_symbolic_reslice, sources=("halmos.bytevec:SymbolicChunk.get_byte", "halmos.bytevec:SymbolicChunk.unwrap")))
 
+
+    def harness_concretize(interp):
+        """Chunk.concretize: substituting symbols does not move the window: byte k of the result is byte start+k of the
+        substituted backing term, length unchanged (full and partial substitutions, every window of a 5-byte term)"""
+        ctx = interp.ctx
+        N = 5
+        hi, lo = z3.BitVec("hi", 16), z3.BitVec("lo", 24)
+        d = z3.Concat(hi, lo)
+        V_hi, V_lo = z3.BitVecVal(0xA1B2, 16), z3.BitVecVal(0xC3D4E5, 24)
+        full = {hi: V_hi, lo: V_lo}
+        partial = {hi: V_hi}
+        conc = {}
+        for name, sub in (("every symbol fixed", full), ("some symbols fixed", partial), ("nothing to substitute", {z3.BitVec("other", 8): z3.BitVecVal(1, 8)})):
+            want_term = z3.simplify(z3.substitute(d, *sub.items()))
+            for st in range(N + 1):
+                for ln in range(1, N - st + 1):
+                    ch = SymbolicChunk(d, st, ln)
+                    r = interp.call(Chunk.__dict__["concretize"], [ch, sub], {})
+                    okk = isinstance(r, Chunk) and len(r) == ln
+                    ctx.oblige(f"concretize[{name}; window {st}+{ln}]: a chunk of the same length", z3.BoolVal(okk), info={"len": len(r) if isinstance(r, Chunk) else -1})
+                    if not okk:
+                        continue
+                    for k in range(ln):
+                        want = z3.Extract(8 * (N - st - k) - 1, 8 * (N - st - k - 1), want_term)
+                        got = r.get_byte(k)
+                        got = z3.BitVecVal(got, 8) if isinstance(got, int) else got
+                        ctx.oblige(f"concretize[{name}; window {st}+{ln}]: byte {k} is byte start+k of the substituted data", got == want)
+
+    out.append(Case(f"{PROP}/bytevec.Chunk.concretize", "every window of a 5-byte term", harness_concretize, replay=replay_concretize_window, sources=("halmos.bytevec:Chunk.concretize",)))
+
     # State.__deepcopy__: the copy owns a copy of the memory and a copy of the stack, for every memory (also an empty one)
     for label in ("empty memory", "one chunk", "two chunks"):
 
@@ -673,6 +703,18 @@ def replay_state_copy(r):
     if len(st.memory) != 0:
         return {"reproduced": True, "detail": f"st = State() (empty memory); c = deepcopy(st); c.memory.set_word(0, 0xaa): the original's memory now has length {len(st.memory)} and reads {st.memory.get_word(0):#x} at 0 (a fork or call-return copy taken before the first memory write aliases the original)", "inputs": "deepcopy of a State with empty memory, then a write to the copy"}
     return {"reproduced": False, "detail": "a write to the copy of an empty-memory state does not reach the original"}
+
+
+def replay_concretize_window(r):
+    p = z3.BitVec("p", 256)
+    V = z3.BitVecVal(int.from_bytes(bytes(range(1, 33)), "big"), 256)
+    cd = ByteVec(b"\xaa\xbb\xcc\xdd")
+    cd.append(p)
+    got = cd.slice(20, 28).concretize({p: V})
+    want = bytes(range(1, 33))[16:24]
+    if len(got) != 8 or got.unwrap() != want:
+        return {"reproduced": True, "detail": f"calldata = selector ++ p, path condition p == 0x0102..20: calldata.slice(20, 28).concretize(p := V) has length {len(got)} and reads {got.unwrap()!r}; the flat array gives the 8 bytes {want!r}", "inputs": "slice(20, 28) of a symbolic word, concretized"}
+    return {"reproduced": False, "detail": "a concretized slice keeps its window"}
 
 
 def replay_symbolic_reslice(r):
